@@ -120,7 +120,7 @@ class Effects:
         self.ix = cg.ix
         self.ti = cg.ti
         self.h = ExcHierarchy(self.ix)
-        self.suppress = suppress or (lambda site, exc: None)
+        self._suppress_fn = suppress or (lambda site, exc, origin=None: None)
         self.suppressed = []  # (site, exc, reason)
         self.untyped_arith = []  # binops whose operands could not be typed (fail-open)
         self.sites = {}
@@ -130,6 +130,12 @@ class Effects:
         for f in self.ix.funcs.values():
             self.sites[f.key] = self._collect(f)
         self._fixpoint()
+
+    def suppress(self, site, exc, origin=None):
+        try:
+            return self._suppress_fn(site, exc, origin)
+        except TypeError:
+            return self._suppress_fn(site, exc)
 
     # ------------------------------------------------------------------
     def handler_names(self, h, f):
@@ -383,7 +389,7 @@ class Effects:
     def _deliver(self, f, site, exc, origin, witness, changed):
         """origin = ident of the primitive site where exc is born"""
         if site.kind in ("prim", "raise", "assert", "call"):
-            r = self.suppress(site, exc)
+            r = self.suppress(site, exc, origin)
             if r:
                 key = (site.ident(), exc)
                 if key not in self._suppressed_keys:
@@ -430,6 +436,27 @@ class Effects:
     def escapes(self, key):
         """{(exc, origin ident): witness chain}"""
         return self.esc.get(key, {})
+
+    def stmt_classes(self, f):
+        """{id(stmt): {exc: why}} classes that may be raised while executing each statement /
+        test of f, before f's own handlers are applied"""
+        out = {}
+        for s in self.sites.get(f.key, ()):
+            d = out.setdefault(id(s.stmt), {})
+            if s.kind in ("prim", "raise", "assert"):
+                for exc, why in s.excs.items():
+                    if not self.suppress(s, exc, s.ident()):
+                        d.setdefault(exc, "%s (%s)" % (s.text[:50], why))
+            elif s.kind == "call":
+                for c in s.callees:
+                    for (exc, origin), w in self.esc.get(c.key, {}).items():
+                        if not self.suppress(s, exc, origin):
+                            d.setdefault(exc, "%s <- %s" % (s.text[:40], origin[1][:40]))
+            elif s.kind == "reraise":
+                inc = self.incoming.get(id(s.reraise_of), {}) if s.reraise_of is not None else {}
+                for (exc, origin) in inc:
+                    d.setdefault(exc, "re-raise")
+        return out
 
     def escaping_classes(self, key):
         return {e for e, _ in self.esc.get(key, {})}
